@@ -141,6 +141,7 @@ def c16(ctx):
 
 def c17(ctx):
     ctx.build()
+    ctx.tlc_mc("StaticMC", "StaticMC.cfg", workers=6, label="soundness theorem: Static!Valid => Sem!Run has no static-class / send-all-shape failure (design level)")
     n = 1500 if ctx.tier == "quick" else 12000
     tp = os.path.join(ctx.work, "trees_types.ndjson")
     gp, cnt = syntax_gen(ctx, ctx.seed, n, "types", "Syntax_static1.cfg", "types", trees_cmd="chk-trees")
